@@ -27,7 +27,7 @@ ASSUMPTIONS = ['the instant now == expiry is don\'t-care; validity is demanded a
 REQUIRED_REACH = ['intact-roundtrip', 'nonempty-cookie-seen', 'expired-server-side', 'valid-before-expiry', 'tamper:flip-mac',
                   'tamper:flip-payload', 'tamper:truncate', 'tamper:extend', 'tamper:swap', 'tamper:other-key', 'tamper:other-server', 'server-with-a-secret-of-its-own', 'tamper:random',
                   'tamper:non-ascii', 'tamper:bad-b64-mac', 'tamper:bad-b64-value', 'tamper:missing-sep', 'tamper:quotes',
-                  'tamper-rejected', 'tampered-cookie-then-stored', 'schedules:first-requests', 'first-requests:both-cookies-presented', 'expiry:session', 'expiry:never', 'expiry:numeric', 'clients:3']
+                  'tamper-rejected', 'two-cookies:steps', 'tampered-cookie-then-stored', 'schedules:first-requests', 'first-requests:both-cookies-presented', 'expiry:session', 'expiry:never', 'expiry:numeric', 'clients:3']
 NSHARDS = 16
 KEYS = ['a', 'user', 'k 1', 'é', 'x=y&z', 'list', 'n', '0', 'long' * 10]
 TAMPERS = ['flip-mac', 'flip-payload', 'truncate', 'extend', 'swap', 'other-key', 'other-server', 'random', 'non-ascii', 'bad-b64-mac',
@@ -84,7 +84,7 @@ class World(object):
         self.ck = ck
         self.sc_mod = sc
         self.expiry_kind = rng.pick(['session', 'never', 'numeric', 'numeric'])
-        self.expiry = {'session': ck.SESSION, 'never': ck.NEVER, 'numeric': rng.pick([60, 3600, 5])}[self.expiry_kind]
+        self.expiry = {'session': ck.SESSION, 'never': ck.NEVER, 'numeric': rng.pick([60, 3600, 5, 86400, 90000, 604800, 2592007, 0.5])}[self.expiry_kind]
         self.arg = rng.pick(['cookie', 'cookie', 'session', 'sess2'])
         self.cname = rng.pick([None, 'sid', 'my-cookie'])
         self.key = bytes(rng.getrandbits(8) for _ in range(20))
@@ -357,7 +357,8 @@ class World(object):
             if target > self.clock.t:
                 self.clock.t = target
         else:
-            self.clock.t += rng.pick([1, 7, 100, 10 ** 6, 0.3, 2.5])
+            # ... up to decades: 'never' and 'session' cookies have no date that could pass (2038 included)
+            self.clock.t += rng.pick([1, 7, 100, 10 ** 6, 0.3, 2.5, 4 * 10 ** 8, 2 * 10 ** 9])
         self.steps.append({'clock': self.clock.t})
 
     def step_replay_stale(self, ci):
@@ -457,6 +458,54 @@ def first_requests(sh, spec):
             sh.hit('first-requests:both-cookies-presented')
 
 
+def two_cookies(sh, rng, n):
+    """Two signed cookies on one application (a session and an admin cookie, say), whose names may begin alike: each keeps
+    its own data, whichever order the middlewares are in, also when both are saved by one response."""
+    from urllib.parse import quote
+    from clastic import Application, Route, Response
+    from clastic.middleware import cookie as ck
+    for i in range(n):
+        names = rng.pick([('cookie', 'cookie_admin'), ('cookie_admin', 'cookie'), ('sess', 'sess2'), ('a', 'b'), ('user', 'user_prefs')])
+        cnames = rng.pick([(None, None), (None, None), ('sid', 'sid-admin'), ('sid-admin', 'sid'), ('c', 'cc')])
+        expiry = rng.pick([ck.SESSION, ck.NEVER, 3600, 5])
+        mws = [ck.SignedCookieMiddleware(arg_name=names[k], cookie_name=cnames[k], secret_key=b'k%d' % k * 10, expiry=expiry) for k in (0, 1)]
+        src = 'def ep(request, %s, %s):\n    return _run(request, %s, %s)\n' % (names[0], names[1], names[0], names[1])
+
+        def _run(request, c0, c1):
+            before = [dict(c0), dict(c1)]
+            op = json.loads(request.args.get('op', '[]'))
+            for which, key, value in op:
+                (c0, c1)[which][key] = value
+            return Response(json.dumps({'before': before}), mimetype='application/json')
+        ns = {'_run': _run}
+        exec(src, ns)
+        app = Application([Route('/c', ns['ep'])], middlewares=mws)
+        jar, model = {}, [{}, {}]
+        case = {'two_cookies': True, 'names': names, 'cookie_names': cnames, 'expiry': str(expiry)}
+        steps = []
+        for step in range(rng.randint(2, 6)):
+            op = [[w, rng.pick(KEYS), rand_value(rng)] for w in rng.pick([[0], [1], [0, 1], [1, 0], []])]
+            headers = {'Cookie': '; '.join('%s=%s' % kv for kv in sorted(jar.items()))} if jar else {}
+            ex = probe.request(app, 'GET', '/c', 'op=' + quote(json.dumps(op)), headers=headers)
+            steps.append(op)
+            if ex.exc is not None or ex.status != 200:
+                sh.violation('C16/error-response', 'two cookie middlewares %r: status %s %s' % (names, ex.status, probe.safe_repr(ex.exc)[:200] if ex.exc else ''),
+                             dict(case, steps=steps))
+                break
+            seen = json.loads(ex.body.decode('utf8'))['before']
+            if strict(seen) != strict(model):
+                sh.violation('C16/intact-cookie-not-presented', 'two cookie middlewares (arguments %r, cookie names %r, expiry %s): after %r the endpoint saw %r, '
+                             'the client stored %r' % (names, [m.cookie_name for m in mws], expiry, steps[:-1], seen, model), dict(case, steps=steps))
+                break
+            for w, key, value in op:
+                model[w][key] = json.loads(json.dumps(value))
+            for sc in ex.header_all('Set-Cookie'):
+                name, _, rest = sc.partition('=')
+                jar[name.strip()] = rest.split(';', 1)[0]
+            sh.hit('two-cookies:steps')
+        sh.case(case, nontrivial=True, klass='two-cookies')
+
+
 def plan(tier, seed):
     specs = [{'label': 'rand-%d' % i, 'n': 190 if tier == 'quick' else 19000, 'timeout': 7200} for i in range(NSHARDS)]
     specs.append({'label': 'first-requests-session', 'first_requests': True, 'timeout': 7200})
@@ -467,6 +516,7 @@ def plan(tier, seed):
 def run_shard(sh, spec):
     if spec.get('first_requests'):
         return first_requests(sh, spec)
+    two_cookies(sh, Rng(spec['seed'], PROPERTY, spec['label'], 'two-cookies'), max(3, spec['n'] // 12))
     for i in range(spec['n']):
         rng = Rng(spec['seed'], PROPERTY, spec['label'], i)
         w = run_history(sh, rng, rng.randint(4, 25))
@@ -478,6 +528,8 @@ def run_shard(sh, spec):
 def replay(sh, case, spec):
     if case.get('first_requests'):
         return first_requests(sh, {'expiry': case.get('expiry')})
+    if case.get('two_cookies'):
+        return two_cookies(sh, Rng(0, 'replay'), 60)
     rng = Rng(case['seed'], PROPERTY, case['shard'], case['index'])
     w = run_history(sh, rng, rng.randint(4, 25))
     sh.notes['steps'] = w.steps
